@@ -400,6 +400,34 @@ mut('c16-put-conditional', 'C16', 'C16.SIB.write_fills_cache[set]', mgr, '''    
             }
         }
         Ok(())''', 'write-through skipped for one record kind: the cache keeps the older copy', also=['C10'])
+mut('c12-let-underscore', 'C12', 'C12.region', dirf, '''        let _publish_guard = self.publish_lock.lock().await;''',
+    '''        let _ = self.publish_lock.lock().await;''', 'guard dropped at once (`let _ =`)')
+mut('c12-early-drop', 'C12', 'C12.region', dirf, '''        // Commit the transaction
+        info!("Committing transaction");''', '''        // Commit the transaction
+        drop(_publish_guard);
+        info!("Committing transaction");''', 'exclusion released before the durable write')
+mut('c12-try-lock', 'C12', 'C12.region', dirf, '''        let _publish_guard = self.publish_lock.lock().await;''',
+    '''        let _publish_guard = self.publish_lock.try_lock().ok();''', 'proceeds without the lock when it is contended')
+mut2('c12-lock-after-read', 'C12', 'C12.region', [(dirf, '''        // Only one publish at a time, the guard will be dropped at the end of the publish operation
+        let _publish_guard = self.publish_lock.lock().await;
+''', ''), (dirf, '''        let current_epoch = current_azks.get_latest_epoch();
+        let next_epoch = current_epoch + 1;
+
+        let mut keys: Vec<AkdLabel> = updates
+            .iter()
+            .map(|(akd_label, _val)| akd_label.clone())
+            .collect();
+
+        // sort the keys, as inserting''', '''        let current_epoch = current_azks.get_latest_epoch();
+        let next_epoch = current_epoch + 1;
+        let _publish_guard = self.publish_lock.lock().await;
+
+        let mut keys: Vec<AkdLabel> = updates
+            .iter()
+            .map(|(akd_label, _val)| akd_label.clone())
+            .collect();
+
+        // sort the keys, as inserting''')], 'lock taken after the epoch record was read')
 
 out = [m for m in M if not m.get('disabled')]
 json.dump({'mutants': out}, open(os.path.join(os.path.dirname(os.path.abspath(__file__)), 'mutants.json'), 'w'), indent=1)
